@@ -425,6 +425,14 @@ def stream_dfxp_doc_text(ctx, res):
                 a, b = b, a
             lines = [" ".join(rng.choice(DOC_ATOMS) for _ in range(rng.choice([1, 1, 2, 3]))) for _ in range(rng.choice([1, 1, 2, 3]))]
             caps.append([a, b, lines])
+        if rng.random() < 0.15:
+            # audit 7: OUTSIDE the clean-line domain (blanks at line edges, an empty line) or a language name with a quote:
+            # the writer model's text is then NOT the writer's (rstrip before <br/>, prettify's strip, bs4's quote choice);
+            # the theorem still speaks about the model document; the real round trip is judged all the same
+            k = rng.randrange(len(caps))
+            caps[k][2] = rng.choice([[" a ", "", "b"], ["x ", " y"], ["", "z"], ["w", ""]])
+            if rng.random() < 0.3:
+                lang = 'e"n'
         cases.append((lang, caps))
     texts = oracle_batch([(207, [lang, caps]) for (lang, caps) in cases])
     reals = []
@@ -453,11 +461,18 @@ def stream_dfxp_doc_text(ctx, res):
             res["violations"].append({"kind": "dfxp-document-round-trip", "writer": "dfxp", "replay": "dfxp-doc",
                                       "what": "DFXPWriter raised %r for %s" % (real, caps), "input": [lang, caps]})
             continue
+        clean = '"' not in lang and all(l and l == l.strip() for (_, _, ls) in caps for l in ls)
+        if not clean:
+            dist["dfxp_documents_outside_the_clean_line_domain"] = dist.get("dfxp_documents_outside_the_clean_line_domain", 0) + 1
         if real.v != text:
-            # another layout of the same document is not a failure of the property: recorded; the real text must still
-            # be read as the same captions by the real reader (violation) and by the string-level reader model
             ndiff += 1
-            res.setdefault("document_text_differences", []).append({"input": [lang, caps], "model": text[:300], "impl": real.v[:300]})
+            if clean:
+                # audit 7: inside the clean-line domain the model text must BE the writer's text (C08's DFXP text theorem
+                # rests on it): a difference is a correspondence disagreement
+                res["disagreements"].append({"what": "DFXP writer model document differs from the real writer's (clean lines)",
+                                             "input": [lang, caps], "model": text[:400], "impl": real.v[:400]})
+            else:
+                res.setdefault("document_text_differences", []).append({"input": [lang, caps], "model": text[:300], "impl": real.v[:300]})
         back = impl.call(lambda: [[l, [[c.start, c.end] for c in cs.get_captions(l)]]
                                   for cs in [DFXPReader().read(real.v)] for l in cs.get_languages()])
         if not (isinstance(back, Ok) and back.v == want):
@@ -469,7 +484,7 @@ def stream_dfxp_doc_text(ctx, res):
         if unwire(m) != want:
             res["disagreements"].append({"what": "string-level reader model on the writer model's document", "input": [lang, caps],
                                          "model": unwire(m), "expected": want})
-        if unwire(mr) != want and not (mr[0] == 1 and mr[1] == 199):
+        if unwire(mr) != want:            # audit 7: "outside the sublanguage" (199) is no excuse for the writer's own output
             res["disagreements"].append({"what": "string-level reader model on the real writer's document", "input": [lang, caps],
                                          "model": unwire(mr), "expected": want})
         for (a, b, _) in caps:
@@ -584,9 +599,10 @@ def stream_sami_doc_text(ctx, res):
                                       "what": "SAMIWriter raised %r for %s" % (real, caps), "input": [lang, caps]})
             continue
         if o == [-1] or real.v != o[0]:
+            # audit 7: the generator sends clean lines and plain language names only: the model text must be the writer's
             ndiff += 1
-            res.setdefault("document_text_differences", []).append({"input": [lang, caps], "model": (o[0] if o != [-1] else "")[:300],
-                                                                    "impl": real.v[:300]})
+            res["disagreements"].append({"what": "SAMI writer model document differs from the real writer's (clean lines)",
+                                         "input": [lang, caps], "model": (o[0] if o != [-1] else "")[:400], "impl": real.v[:400]})
         back = impl.call(lambda: [[l, [[c.start, c.end] for c in cs.get_captions(l)]]
                                   for cs in [SAMIReader().read(real.v)] for l in cs.get_languages()])
         if not (isinstance(back, Ok) and back.v == want):
@@ -598,7 +614,7 @@ def stream_sami_doc_text(ctx, res):
         if o != [-1] and unwire(o[2]) != want:
             res["disagreements"].append({"what": "string-level SAMI reader model on the writer model's document", "input": [lang, caps],
                                          "model": unwire(o[2]), "expected": want})
-        if unwire(mr) != want and not (mr[0] == 1 and mr[1] == 199):
+        if unwire(mr) != want:
             res["disagreements"].append({"what": "string-level SAMI reader model on the real writer's document", "input": [lang, caps],
                                          "model": unwire(mr), "expected": want})
         for (a, b, _) in caps:
@@ -655,6 +671,8 @@ def stream_dfxp_doc_langs(ctx, res):
             continue
         if real.v != text:
             ndiff += 1
+            res["disagreements"].append({"what": "multi-language DFXP writer model document differs from the real writer's (clean lines)",
+                                         "input": langs, "model": text[:400], "impl": real.v[:400]})
         back = impl.call(lambda: [[l, [[c.start, c.end] for c in cs.get_captions(l)]]
                                   for cs in [DFXPReader().read(real.v)] for l in cs.get_languages()])
         if not (isinstance(back, Ok) and sorted(back.v) == sorted(want)):
@@ -663,7 +681,7 @@ def stream_dfxp_doc_langs(ctx, res):
                                               % (back.v if isinstance(back, Ok) else repr(back), want), "input": langs})
             continue
         mm = [[l, [list(x) for x in c]] for (l, c) in mr[1]] if mr[0] == 0 else mr
-        if mm != want and not (mr[0] == 1 and mr[1] == 199):
+        if mm != want:
             res["disagreements"].append({"what": "string-level reader model on the real multi-language DFXP document",
                                          "input": langs, "model": mm, "expected": want})
     dist["dfxp_multi_language_documents_compared_with_writer_model"] = len(cases)
@@ -895,7 +913,7 @@ def run(ctx):
                     "DFXP DOCUMENT at string level (wave 7): the written text is a well-formed rendering whose begin / end "
                     "attributes are the writer model's tokens, and the string-level reader model reads it back as one "
                     "caption per caption, in order, floored to the millisecond, for every caption list with integer times "
-                    "below 24 h (C02_dfxp_document_wellformed, _tokens, _string)",
+                    "below 24 h (C02_dfxp_document_wellformed_unfold, _tokens, _string)",
                     "SAMI DOCUMENT at string level (round 4): the written body text, read by the string-level SAMI reader "
                     "model, yields every caption of a timeline with start and non-final end floored to the ms and the "
                     "4 s tail (C02_sami_document_string)"],
